@@ -36,6 +36,11 @@ def run(index: RepoIndex, rep) -> None:
              floor=6)
     rep.rule('C16.R6', 'compact: one counter from 0, every store followed by += 1, sorted '
              'iteration orders', floor=10)
+    rep.rule('C16.R7', 'equal states hash alike: __hash__ reads what __eq__ compares, is '
+             'structural and not memoised (C03.R5)', floor=8)
+    from ..effects import Effects
+    from .c03 import eq_hash
+    eq_hash(index, rep, 'C16.R7', Effects(index))
     # ---- R1
     eq = index.func(GO, 'GridObject.__eq__')
     me, other = [a.arg for a in eq.node.args.args]
